@@ -1,25 +1,30 @@
 """C04 — a socket connection stays usable after any call outcome (server dispatch kernel).
 
 Kernel: the real ``RpcServer.serve_one`` / ``_serve_unary`` / ``_serve_stream`` / ``_read_request`` and the
-real client writers/readers (``_write_request``, ``new_ipc_stream``, ``_read_stream_header``,
-``_read_batch_with_log_check``, ``_read_unary_response``) run on in-memory transports with concrete
-pyarrow.  The client side is the real client code cut at its blocking reads: it writes the request,
-and — only when the server asks for more input — reads the stream header (if declared) and then writes
-its input IPC stream (k ticks / exchanges, optionally a cancel batch, EOS).  Writing the whole input
-stream at once over-approximates the lock-step client (which stops ticking at the first error / finish):
-the server drains what it does not process, so the byte positions after the call are the same.
+real client code (``_send_request``/``_write_request``, ``_read_stream_header``, ``_read_unary_response`` and
+the real ``StreamSession.tick/exchange/close/cancel``) run on in-memory transports with concrete pyarrow.
+The server is the thread of control; its read end is demand-driven: when it runs dry the client — the real
+client code cut at its blocking reads — makes progress first: it reads the stream header (if declared) and
+only then writes its input IPC stream (k ticks / exchanges, optionally a cancel batch, EOS); if the client
+cannot add bytes while the server waits, that is a hang.  The input stream is written in one piece, which
+over-approximates the lock-step client (it stops ticking at the first error / finish): the server drains
+what it does not process, so the byte positions after the call are the same.  The read side of a stream call
+is then done by a real ``StreamSession`` driven through the same API calls; what it writes meanwhile goes to
+a scratch buffer that must equal the bytes sent earlier whenever all k steps were performed (model check).
 
 Symbolic: the *fault script* — small ints/bools steering a concrete test service and the client
 behaviour.  The solver's role is the case split over this finite fault grid (stated in BOUNDS); every
-path below the split runs concretely.
+path below the split is fully concrete and is executed with CrossHair's tracer switched off (``NoTracing``),
+because tracing the ~10^5 bytecodes of a dispatch costs seconds per path and decides nothing more.
 
 Asserted per script:
   1. ``serve_one`` returns, or raises only a class the ``RpcServer.serve`` loop treats as end of
-     connection (read from the ``except`` clauses of ``serve`` with ``ast`` at run time);
+     connection (read from the ``except`` clauses of ``serve`` with ``ast`` at run time) — and since the
+     client always sends complete calls, even those are reported;
   2. neither side is left waiting: the server never asks for input the client will not send, the
-     response bytes are complete IPC streams and the client-side readers consume exactly all of them;
-  3. the server consumed exactly what the client wrote for that call (next request is aligned);
-  4. a faulty call is answered with an ``RpcError`` whenever the fault was reached;
+     response bytes are complete IPC streams and the real client readers consume exactly all of them;
+  3. the server consumed exactly what the client wrote (no bytes left over on either side at the end);
+  4. a faulty call is answered with an ``RpcError`` whenever the client asks for a result;
   5. a second, well-formed call on the same buffers (unary or stream, symbolic) gets its own answer.
 
 Real replay: ``make_pipe_pair`` + ``RpcServer.serve`` in a thread + the real client proxy /
@@ -66,6 +71,10 @@ ENCODED = [
     wire._read_batch_with_log_check,
     wire._drain_stream,
     wire._write_error_stream,
+    cli.StreamSession.tick,
+    cli.StreamSession.exchange,
+    cli.StreamSession.close,
+    cli.StreamSession.cancel,
 ]
 _K = pick(3, 5)  # max ticks / exchanges the client sends
 _TOTAL = 2  # items the test producer yields before finishing
